@@ -94,6 +94,17 @@ def gen_sessions(rng, world, nsess, reset="rollback", queue=True, chars=False, k
         for _ in range(nops):
             r = rng.random()
             nh = len(world.handles)
+            if chars and rng.random() < 0.10:
+                # execution_options() in the middle of the session: inside a transaction the
+                # transactional characteristics are refused, the others are not
+                # (no local reference to the Connection may survive the yield: `N` relies on
+                # the garbage collector finding it unreferenced)
+                in_txn = world.conn is not None and not world.conn.closed and world.conn.in_transaction()
+                t = rng.choice(["L", "O"] if world.plan.armed else ["A", "U", "L", "O", "LA", "L"])
+                if t in ("A", "U", "LA") and not in_txn:
+                    auto = True
+                yield t
+                continue
             if r < 0.10:
                 yield "b"
             elif r < 0.20 and not auto:
